@@ -232,3 +232,61 @@ pub fn run_edges(input: &Value) -> Value {
   }
   json!({"outputs": [{"requested": requested, "records": recs}]})
 }
+
+
+/// C01 load kernel replay: one import of X (optionally `with { type: K }`) from the root of a real build; reports what the graph
+/// holds for X afterwards.
+pub fn run_load_request(input: &Value) -> Value {
+  let w = &input["world"];
+  let b = |k: &str| w[k].as_bool().unwrap();
+  let x = match w["load_kind"].as_str().unwrap() {
+    "Url" => "https://h/x.txt",
+    "Node" => "node:fs",
+    "Jsr" => "jsr:@a/b",
+    o => panic!("load kind {o} is not realisable"),
+  };
+  let attrs = match w["attribute"].as_str() {
+    Some(k) => ImportAttributes::Known(HashMap::from([("type".to_string(), ImportAttribute::Known(k.to_string()))])),
+    None => ImportAttributes::None,
+  };
+  let dep = DependencyDescriptor::Static(StaticDependencyDescriptor {
+    kind: StaticDependencyKind::Import, types_specifier: None, specifier: x.to_string(), specifier_range: PositionRange::zeroed(),
+    is_side_effect: false, import_attributes: attrs });
+  struct A(ModuleInfo);
+  #[async_trait::async_trait(?Send)]
+  impl ModuleAnalyzer for A {
+    async fn analyze(&self, s: &ModuleSpecifier, _t: Arc<str>, _m: MediaType) -> Result<ModuleInfo, deno_error::JsErrorBox> {
+      Ok(if s.as_str() == "file:///root.ts" { self.0.clone() } else { ModuleInfo::default() })
+    }
+  }
+  let analyzer = A(ModuleInfo { dependencies: vec![dep], ..Default::default() });
+  let sources: Vec<(String, Source<String, String>)> = vec![
+    ("file:///root.ts".to_string(), Source::Module { specifier: "file:///root.ts".to_string(), maybe_headers: None, content: "".to_string() }),
+    ("https://h/x.txt".to_string(), Source::Module { specifier: "https://h/x.txt".to_string(), maybe_headers: None, content: "hello".to_string() }),
+  ];
+  let loader = MemoryLoader::new(sources, vec![]);
+  let mut graph = ModuleGraph::new(GraphKind::All);
+  futures::executor::block_on(graph.build(
+    vec![ModuleSpecifier::parse("file:///root.ts").unwrap()],
+    vec![],
+    &loader,
+    BuildOptions {
+      is_dynamic: b("in_dynamic_branch"),
+      unstable_bytes_imports: b("unstable_bytes_imports"),
+      unstable_text_imports: b("unstable_text_imports"),
+      unstable_css_imports: b("unstable_css_imports"),
+      passthrough_jsr_specifiers: b("passthrough_jsr_specifiers"),
+      module_analyzer: &analyzer,
+      ..Default::default()
+    },
+  ));
+  let xs = ModuleSpecifier::parse(x).unwrap();
+  let class = match graph.try_get(&xs) {
+    Ok(Some(Module::External(e))) => if e.was_asset_load { "asset".to_string() } else { "external".to_string() },
+    Ok(Some(Module::Node(_))) => "node".to_string(),
+    Ok(Some(_)) => "module".to_string(),
+    Ok(None) => "absent".to_string(),
+    Err(e) => { let d = format!("{:?}", e.as_kind()); format!("err:{}", d.split(|c: char| !c.is_alphanumeric()).next().unwrap()) }
+  };
+  json!({"outputs": [{"target": class}]})
+}
